@@ -333,6 +333,35 @@ def wl_toplevel(ctx, rng, i):
             if r.has_custom or r.get(pa) != 3 or not isinstance(r["extensions"][ename], cls):
                 ctx.violation("toplevel-extension-property-counted-as-custom", "after %s: has_custom=%s, %s=%r, extension class %s" % (rname, r.has_custom, pa, r.get(pa), type(r["extensions"][ename]).__name__),
                               dict(w, form=fname, route=rname))
+    # a refused object registration that names a new-object extension leaves no extension behind; the corrected retry works
+    ename2 = "extension-definition--" + V.uuid_text(rng, 4)
+    tname = "x-stixmon-c19-%s-ext%d" % (ctx.seed, i)
+    kind2 = rng.choice(["object", "observable"])
+    dec2 = stix2.v21.CustomObject if kind2 == "object" else stix2.v21.CustomObservable
+    bad_name = rng.choice(["a b", "fo", "Foo_bar", "foo-bar"])
+    for attempt, props, extname in (("bad property name", [(bad_name, P.StringProperty())], ename2), ("extension_name that is no extension definition id", [("prop_one", P.StringProperty())], "x-stixmon-not-an-id-ext")):
+        ctx.ev()
+        ctx.count("registration_attempts")
+        try:
+            with warnings.catch_warnings():
+                warnings.simplefilter("ignore")
+                dec2(tname, props, extension_name=extname)(type("Body", (object,), {}))
+            ctx.violation("invalid-registration-accepted", "registering %r with %s was accepted" % (tname, attempt), dict(w, type=tname, attempt=attempt))
+        except family():
+            pass
+        except Exception as e:
+            ctx.violation("registration-raised-outside-family", "registering %r with %s raised %s" % (tname, attempt, type(e).__name__), dict(w, type=tname, attempt=attempt, exception=repr(e)))
+        left = [n for n in (extname,) if looks_up("extension", "2.1", n) is not None] + [tname for c in ("object", "observable") if looks_up(c, "2.1", tname) is not None]
+        if left:
+            ctx.violation("failed-registration-changed-registry", "a refused registration (%s) left %r registered" % (attempt, left), dict(w, type=tname, attempt=attempt, left=left))
+    try:
+        with warnings.catch_warnings():
+            warnings.simplefilter("ignore")
+            dec2(tname, [("prop_one", P.StringProperty())], extension_name=ename2)(type("Body", (object,), {}))
+        if looks_up("extension", "2.1", ename2) is None or looks_up(kind2, "2.1", tname) is None:
+            ctx.violation("valid-registration-incomplete", "a valid registration with extension_name did not register both names", dict(w, type=tname))
+    except family() as e:
+        ctx.violation("valid-registration-refused", "the corrected retry of a refused registration raised %s: %s" % (type(e).__name__, str(e)[:100]), dict(w, type=tname, exception=repr(e)))
     # a property the extension does not define stays custom
     ctx.ev()
     try:
